@@ -7,7 +7,8 @@ import subprocess
 import sys
 from concurrent.futures import ThreadPoolExecutor
 
-from mc import c16events, lib, libstate, reentry, sched
+from mc import alphabets as A
+from mc import c16events, lib, libstate, reentry, refcodec, sched, spec_table
 from mc.c16events import EVENTS, TOGGLES
 from mc.canon import short
 
@@ -1152,6 +1153,46 @@ HARNESSES += [
         _call('field_table(other)',
               lambda p: p.encode.field_table(_OTHER).hex())], 2, 3,
      {'judged': [0], 'custom': {1: _other_ok}}),
+]
+
+
+def _narrow(func, **settings):
+    """Run func under a decimal context of this thread's own making: the
+    context is the calling thread's environment, and worker threads are not
+    the thread that imported the library."""
+    import decimal
+
+    def run(p):
+        with decimal.localcontext() as ctx:
+            for k, v in settings.items():
+                setattr(ctx, k, v)
+            return func(p)
+    return run
+
+
+_DEC_TABLE = {'d': A.D('1234.5678'), 'e': [A.D('-21474836.47'), A.D('0.001')],
+              'n': {'x': A.D('2147483.647')}}
+_DEC_WIRE = refcodec.enc_table(_DEC_TABLE)
+
+HARNESSES += [
+    ('encode Decimals under a 3-digit thread context || decode Decimals '
+     'under a 2-digit ROUND_UP thread context', [
+         _call('field_table(decimals), prec=3', _narrow(
+             lambda p: p.encode.field_table(_DEC_TABLE).hex(), prec=3)),
+         _call('decode.field_table(decimals), prec=2', _narrow(
+             lambda p: c16events.c(p.decode.field_table(_DEC_WIRE)), prec=2,
+             rounding='ROUND_UP'))], 1, 2),
+    ('marshal a header with Decimals under a 1-digit thread context || '
+     'unmarshal it under a 4-digit one', [
+         _call('marshal header(decimals), prec=1', _narrow(
+             lambda p: p.frame.marshal(p.header.ContentHeader(
+                 0, 1, p.commands.Basic.Properties(headers=_DEC_TABLE)),
+                 1).hex(), prec=1)),
+         _call('unmarshal Queue.Declare(decimals), prec=4', _narrow(
+             lambda p: _view(p.frame.unmarshal(refcodec.enc_method_frame(
+                 spec_table.BY_NAME['Queue.Declare'],
+                 (0, 'q', False, False, False, False, False, _DEC_TABLE),
+                 1)[0])), prec=4))], 1, 2),
 ]
 
 
